@@ -234,9 +234,12 @@ def unmove(cur_trees, ref_trees):
             ct.body.remove(cdef)
             cdef.decorator_list = [ast.Name("staticmethod", ast.Load())]
             cls.body.append(cdef)
-            for n in ast.walk(ct):
-                if isinstance(n, ast.Call) and isinstance(n.func, ast.Name) and n.func.id == name:
-                    n.func = ast.copy_location(ast.Attribute(value=ast.Name(c, ast.Load()), attr=name, ctx=ast.Load()), n.func)
+            class _Ref(ast.NodeTransformer):
+                def visit_Name(self, n):
+                    if n.id == name and isinstance(n.ctx, ast.Load):
+                        return ast.copy_location(ast.Attribute(value=ast.Name(c, ast.Load()), attr=name, ctx=ast.Load()), n)
+                    return n
+            _Ref().visit(ct)
             ast.fix_missing_locations(ct)
             done.append("%s:%s.%s" % (m, c, name))
     return done
@@ -269,6 +272,17 @@ def reextract(cur_trees, ref_trees, max_size=400):
                         if (isinstance(x, ast.Attribute) and x.attr == name) or (isinstance(x, ast.Name) and x.id == name):
                             callers.append((c2, n2))
                             break
+                # a caller that vanished as well was inlined into *its* callers: look there (two levels up at most)
+                vanished_keys = {k for k, _ in vanished}
+                for _lvl in range(2):
+                    more = []
+                    for key in callers:
+                        if key in vanished_keys and key not in _functions(ct):
+                            for (c3, n3), d3 in rf.items():
+                                if any((isinstance(x, ast.Attribute) and x.attr == key[1]) or (isinstance(x, ast.Name) and x.id == key[1])
+                                       for x in ast.walk(d3)) and (c3, n3) not in callers and (c3, n3) not in more and d3 is not rf[key]:
+                                    more.append((c3, n3))
+                    callers += more
                 counter = []
                 cur = _functions(ct)
                 for key in callers:
